@@ -135,7 +135,10 @@ def gen_value(fam, rng, pid=None, boundary=None):
     if k in ('P', 'M', 'V'):
         depth = 0
         if k != 'P':
-            depth = 1 + rng.below(8 if k == 'M' else 7)
+            # the deepest stack the length octet can describe: 10 labels (240 bits) for labelled unicast, 7 (168 + 64 bits) with a
+            # route distinguisher; one case in five sits on that limit or one below it
+            top = 10 if k == 'M' else 7
+            depth = rng.choice([top, top, top - 1]) if rng.chance(1, 5) else 1 + rng.below(top)
             def inner(rng):
                 # label values from a small pool so that the special values 0 (explicit null) and 0x80000 occur inside a stack;
                 # with the traffic-class bits clear those would be the compatibility stop labels, so they get a non-zero class
